@@ -8,7 +8,7 @@ static const Info I = {
     "drop the handle while pending, poll ready() then value(), copy + drop original + wait()}; the owner keeps or drops its handle before joining. Oracle: every awaiter and copy observes the same single result, each released exactly once; "
     "the stored instance-counted value is alive exactly while needed (1 while a handle exists after a value resolution, 0 after the last handle died), constructed == destroyed, allocation balance 0, ASan (use-after-free of the shared state), deadlock detector. "
     "Non-trivial = >=1 context switch and a pending construction or >=2 workers; distinct = hash(decoded program, executed switch trace).",
-    scen_shared::class_names, 5, scen_shared::counter_names, 1};
+    scen_shared::class_names, 8, scen_shared::counter_names, 1};
 const Info &info() { return I; }
 void run_case(Reader &r) { scen_shared::run(r); }
 std::string describe(Reader &r) { return scen_shared::describe(scen_shared::decode(r)); }
